@@ -292,6 +292,9 @@ func EdgeFacts(b *ssa.BasicBlock) []Cond {
 // expandCond decomposes a condition that is a materialised short-circuit value
 // (go/ssa builds `a || b` / `a && b` used as a value - e.g. a tagless switch case - as a phi
 // of a constant and the last operand): (a || b) false ⇒ a false and b false; (a && b) true ⇒ both true.
+// ExpandCond exposes the decomposition of a decided condition into the operand facts it implies.
+func ExpandCond(c Cond) []Cond { return expandCond(c, 0) }
+
 func expandCond(c Cond, depth int) []Cond {
 	out := []Cond{c}
 	if depth > 4 {
@@ -513,7 +516,18 @@ func PathCountIter(from *ssa.BasicBlock, after ssa.Instruction, weight func(ssa.
 	return pathCount(from, after, weight, skip, false)
 }
 
+// PathCountEdges is PathCountFrom where, in addition to blocks, individual CFG edges can be declared
+// non-existent (e.g. the edge on which a closed flag was found set), which also covers guards of the
+// form `if !closed { … }` whose other edge falls straight through to the join block.
+func PathCountEdges(from *ssa.BasicBlock, after ssa.Instruction, weight func(ssa.Instruction) int, skipEdge func(from, to *ssa.BasicBlock) bool) (min, max int) {
+	return pathCountE(from, after, weight, nil, skipEdge, true)
+}
+
 func pathCount(from *ssa.BasicBlock, after ssa.Instruction, weight func(ssa.Instruction) int, skip func(*ssa.BasicBlock) bool, loopPenalty bool) (min, max int) {
+	return pathCountE(from, after, weight, skip, nil, loopPenalty)
+}
+
+func pathCountE(from *ssa.BasicBlock, after ssa.Instruction, weight func(ssa.Instruction) int, skip func(*ssa.BasicBlock) bool, skipEdge func(from, to *ssa.BasicBlock) bool, loopPenalty bool) (min, max int) {
 	type mm struct{ min, max int }
 	memo := map[*ssa.BasicBlock]*mm{}
 	onStack := map[*ssa.BasicBlock]bool{}
@@ -546,7 +560,7 @@ func pathCount(from *ssa.BasicBlock, after ssa.Instruction, weight func(ssa.Inst
 			res = &mm{w, w}
 		} else {
 			for _, s := range b.Succs {
-				if onStack[s] || (skip != nil && skip(s)) {
+				if onStack[s] || (skip != nil && skip(s)) || (skipEdge != nil && skipEdge(b, s)) {
 					continue
 				}
 				r := visit(s, 0)
